@@ -121,7 +121,7 @@ def normalise(trace, idmap):
                 else:
                     parts.append(p)
             out.append(t[:3] + ';'.join(parts) + ';}')
-        elif t.startswith('fired='):
+        elif t.startswith('fired=') or t.startswith('xn='):
             continue
         else:
             out.append(t)
